@@ -1558,6 +1558,307 @@ fn table_items() -> Vec<TableCase> {
     items
 }
 
+// ------------------------------------------------------------------------------------------
+// group-tx-node: the group data counter through the REAL `Exchange::initiate_group` on a running
+// node (the component sub-checks above play that caller themselves): every group message that
+// reaches the wire carries a counter below the boundary the store held when it was sent, and no
+// counter value is ever used twice - across refused sends (no free exchange slot, failing
+// store) and restarts.
+
+mod txnode {
+    use super::*;
+    use rs_matter::crypto::CanonAeadKey;
+    use rs_matter::fabric::GroupKeyMapping;
+    use rs_matter::group_keys::{GroupEpochKeyEntry, GroupKeySet};
+    use rs_matter::transport::exchange::{Exchange, MessageMeta};
+    use rs_matter::transport::network::NoNetwork;
+    use std::rc::Rc;
+    use vh::sim::fabric::{install, new_member, Ca, Member};
+    use vh::sim::net::Net;
+    use vh::sim::node::{mk_crypto, new_matter};
+    use vh::sim::{Exec, Sched, Stop, MS};
+
+    #[derive(Debug, Clone, Serialize, Deserialize)]
+    pub enum Op {
+        /// send that many group messages
+        Send(u16),
+        /// send until that many reservations are left before the in-memory boundary
+        Approach(u8),
+        /// open that many group exchanges and keep them (they occupy exchange slots)
+        Hold(u8),
+        Release,
+        /// the next store operation fails
+        FailNextStore,
+        Restart,
+    }
+
+    #[derive(Debug, Clone, Serialize, Deserialize)]
+    pub struct TxCase {
+        /// boundary found in the store at the first boot (None = virgin store)
+        pub stored: Option<u32>,
+        pub ops: Vec<Op>,
+    }
+
+    pub fn tx_case() -> impl Strategy<Value = TxCase> {
+        let op = prop_oneof![
+            3 => (1u16..40).prop_map(Op::Send),
+            4 => (0u8..4).prop_map(Op::Approach),
+            3 => (1u8..7).prop_map(Op::Hold),
+            2 => Just(Op::Release),
+            2 => Just(Op::FailNextStore),
+            2 => Just(Op::Restart),
+        ];
+        (
+            prop_oneof![1 => Just(None), 3 => (0u32..100_000).prop_map(Some), 1 => ((1u32 << 28) - 3000..(1u32 << 28)).prop_map(Some)],
+            prop::collection::vec(op, 2..14),
+        )
+            .prop_map(|(stored, ops)| TxCase { stored, ops })
+    }
+
+    thread_local! {
+        static FAB: RefCell<Option<Rc<(Ca, Member)>>> = const { RefCell::new(None) };
+    }
+
+    fn fab() -> Result<Rc<(Ca, Member)>, String> {
+        FAB.with(|f| {
+            if let Some(x) = f.borrow().as_ref() {
+                return Ok(x.clone());
+            }
+            let crypto = mk_crypto(0x7478_0001);
+            let ca = Ca::new(&crypto, 0xFAB0_0012, false, 9).map_err(|e| format!("ca: {e:?}"))?;
+            let m = new_member(&crypto, &ca, 0xD012, &[]).map_err(|e| format!("member: {e:?}"))?;
+            let x = Rc::new((ca, m));
+            *f.borrow_mut() = Some(x.clone());
+            Ok(x)
+        })
+    }
+
+    const GROUP: u16 = 0x0101;
+
+    struct Wire {
+        ctr: u32,
+        durable: Option<u32>,
+        boot: usize,
+    }
+
+    fn stored_boundary(kv: &MemKv) -> Option<u32> {
+        kv.get(GROUP_DATA_COUNTER_KEY).and_then(|b| (b.len() == 4).then(|| u32::from_le_bytes([b[0], b[1], b[2], b[3]])))
+    }
+
+    type Ctrs = (std::cell::Cell<usize>, std::cell::Cell<usize>, std::cell::Cell<usize>);
+
+    /// One group message through `Exchange::initiate_group`; records what reached the wire
+    /// together with the boundary the store held when it was sent.
+    #[allow(clippy::too_many_arguments)]
+    async fn send_one<'m, C: Crypto, A>(
+        node: &'m rs_matter::Matter<'m>,
+        crypto: &C,
+        access: &A,
+        kv: &MemKv,
+        net: &Net,
+        seen: &std::cell::Cell<usize>,
+        wire: &RefCell<Vec<Wire>>,
+        ctrs: &Ctrs,
+        fab_idx: core::num::NonZeroU8,
+    ) -> Result<(), String>
+    where
+        for<'x> &'x A: KvBlobStoreAccess,
+    {
+        let durable_before = stored_boundary(kv);
+        match Exchange::initiate_group(node, crypto, access, fab_idx, GROUP) {
+            Ok(mut e) => {
+                let durable = stored_boundary(kv);
+                let r = e.send(MessageMeta::new(0x00F7, 1, false), &[1, 2, 3]).await;
+                drop(e);
+                embassy_time::Timer::after(embassy_time::Duration::from_millis(1)).await;
+                let new: Vec<u32> = net.with_tap(|t| {
+                    let v = t.sent.iter().skip(seen.get()).filter_map(|s| vh::sim::node::decode_plain(&s.bytes).map(|p| p.1)).collect();
+                    seen.set(t.sent.len());
+                    v
+                });
+                for ctr in new {
+                    wire.borrow_mut().push(Wire { ctr, durable, boot: 0 });
+                }
+                if durable != durable_before {
+                    ctrs.2.set(ctrs.2.get() + 1);
+                }
+                r.map_err(|e| format!("send: {:?}", e.code()))
+            }
+            Err(e) => {
+                match e.code() {
+                    ErrorCode::NoSpaceExchanges => ctrs.0.set(ctrs.0.get() + 1),
+                    _ => ctrs.1.set(ctrs.1.get() + 1),
+                }
+                Ok(())
+            }
+        }
+    }
+
+    pub fn check(case: &TxCase) -> Case {
+        vh::sim::reset_universe();
+        let kv = MemKv::new();
+        if let Some(b) = case.stored {
+            kv.put_raw(GROUP_DATA_COUNTER_KEY, b.to_le_bytes().to_vec());
+        }
+        let world = match fab() {
+            Ok(x) => x,
+            Err(e) => return Case::inconclusive(e),
+        };
+        let (ca, member) = (&world.0, &world.1);
+        let mut wire: Vec<Wire> = Vec::new();
+        let mut labels: Vec<String> = Vec::new();
+        let mut ops = case.ops.iter().peekable();
+        let mut boot = 0usize;
+        let mut refused_nospace = 0;
+        let mut refused_store = 0;
+        let mut crossed = 0;
+        while ops.peek().is_some() {
+            boot += 1;
+            let crypto = mk_crypto(boot as u32 + 77);
+            let node = Box::new(new_matter(5540));
+            let access = node.kv(kv.clone());
+            if let Err(e) = node.startup(&access) {
+                return Case::fail("tx-node:start-up-failed", format!("boot #{boot}: {:?}", e.code()));
+            }
+            let fab_idx = match install(&node, &crypto, ca, member, 0x1000) {
+                Ok(i) => i,
+                Err(e) => return Case::inconclusive(format!("install: {e:?}")),
+            };
+            let keyed: Result<(), String> = node.with_state(|st| {
+                let f = st.fabrics.fabric_mut(fab_idx).map_err(|e| format!("{e:?}"))?;
+                let mut epoch_keys = rs_matter::utils::storage::Vec::new();
+                let mut epoch_key = CanonAeadKey::new();
+                epoch_key.load_from_array(&[0x42; 16]);
+                epoch_keys.push(GroupEpochKeyEntry { epoch_key, epoch_start_time: 0 }).map_err(|_| "epoch keys".to_string())?;
+                f.groups_mut()
+                    .key_set_add(GroupKeySet { group_key_set_id: 1, group_key_security_policy: 0, epoch_keys })
+                    .map_err(|e| format!("key_set_add: {e:?}"))?;
+                f.groups_mut().key_map_add(GroupKeyMapping { group_id: GROUP, group_key_set_id: 1 }).map_err(|e| format!("key_map_add: {e:?}"))?;
+                Ok(())
+            });
+            if let Err(e) = keyed {
+                return Case::inconclusive(e);
+            }
+            let net = Net::new(1);
+            let seen = std::cell::Cell::new(0usize);
+            let restart = std::cell::Cell::new(false);
+            let trouble: RefCell<Option<String>> = RefCell::new(None);
+            let counters: Ctrs = (std::cell::Cell::new(0usize), std::cell::Cell::new(0usize), std::cell::Cell::new(0usize));
+            let wire_cell: RefCell<Vec<Wire>> = RefCell::new(Vec::new());
+            let done = std::cell::Cell::new(false);
+            {
+                let mut ex = Exec::new(Sched::Fifo);
+                ex.add_time_source(&net);
+                ex.spawn("dev.run", async {
+                    let _ = node.run(&crypto, net.end(0), net.end(0), NoNetwork).await;
+                });
+                let (node_r, crypto_r, kv_r, net_r) = (&*node, &crypto, &kv, &net);
+                let (ops_r, seen_r, restart_r, trouble_r, ctrs_r, wire_r) = (&mut ops, &seen, &restart, &trouble, &counters, &wire_cell);
+                let done_r = &done;
+                ex.spawn("app", async move {
+                    let access = node_r.kv(kv_r.clone());
+                    let mut held: Vec<Exchange<'_>> = Vec::new();
+                    while let Some(op) = ops_r.next() {
+                        match op {
+                            Op::Send(n) => {
+                                for _ in 0..*n {
+                                    if let Err(e) = send_one(node_r, crypto_r, &access, kv_r, net_r, seen_r, wire_r, ctrs_r, fab_idx).await {
+                                        *trouble_r.borrow_mut() = Some(e);
+                                    }
+                                }
+                            }
+                            Op::Approach(left) => {
+                                let mut guard = 0;
+                                loop {
+                                    let (ctr, boundary) = node_r.with_state(|s| s.verif_sessions().verif_global_group_data_ctr_state());
+                                    let remaining = boundary.wrapping_sub(ctr);
+                                    guard += 1;
+                                    if remaining <= *left as u32 || remaining > GROUP_DATA_CTR_EPOCH * 2 || guard > 1200 {
+                                        break;
+                                    }
+                                    if let Err(e) = send_one(node_r, crypto_r, &access, kv_r, net_r, seen_r, wire_r, ctrs_r, fab_idx).await {
+                                        *trouble_r.borrow_mut() = Some(e);
+                                        break;
+                                    }
+                                }
+                            }
+                            Op::Hold(k) => {
+                                for _ in 0..*k {
+                                    match Exchange::initiate_group(node_r, crypto_r, &access, fab_idx, GROUP) {
+                                        Ok(e) => held.push(e),
+                                        Err(e) => match e.code() {
+                                            ErrorCode::NoSpaceExchanges => ctrs_r.0.set(ctrs_r.0.get() + 1),
+                                            _ => ctrs_r.1.set(ctrs_r.1.get() + 1),
+                                        },
+                                    }
+                                }
+                            }
+                            Op::Release => held.clear(),
+                            Op::FailNextStore => kv_r.fail_write_at(kv_r.write_count() + 1),
+                            Op::Restart => {
+                                restart_r.set(true);
+                                break;
+                            }
+                        }
+                    }
+                    drop(held);
+                    done_r.set(true);
+                });
+                let st = ex.run_until(vh::sim::clock::now() + 600_000 * MS, || done.get());
+                if st == Stop::PollLimit {
+                    return Case::inconclusive("poll watchdog");
+                }
+            }
+            if let Some(t) = trouble.borrow().clone() {
+                return Case::inconclusive(t);
+            }
+            refused_nospace += counters.0.get();
+            refused_store += counters.1.get();
+            crossed += counters.2.get();
+            for mut w in wire_cell.into_inner() {
+                w.boot = boot;
+                wire.push(w);
+            }
+            let _ = restart.get();
+        }
+        // oracle
+        let mut seen: BTreeMap<u32, usize> = BTreeMap::new();
+        for w in &wire {
+            let covered = w.durable.map(|b| GROUP_SPACE.covers(b as u64, w.ctr as u64)).unwrap_or(false);
+            if !covered {
+                return Case::fail(
+                    "tx-node:counter-on-the-wire-not-covered-by-the-stored-boundary",
+                    format!("boot #{}: a group message with counter {} went out while the store held boundary {:?} (a restart resumes at the stored boundary and would hand the value out again)", w.boot, w.ctr, w.durable),
+                );
+            }
+            if let Some(prev) = seen.insert(w.ctr, w.boot) {
+                return Case::fail(
+                    "tx-node:counter-used-twice",
+                    format!("group data counter {} was on the wire in boot #{prev} and again in boot #{}", w.ctr, w.boot),
+                );
+            }
+        }
+        if refused_nospace > 0 {
+            labels.push("refused:no-exchange-slot".into());
+        }
+        if refused_store > 0 {
+            labels.push("refused:other(store)".into());
+        }
+        if crossed > 0 {
+            labels.push("boundary-moved".into());
+        }
+        labels.push(format!("boots={}", boot.min(4)));
+        labels.push(match wire.len() {
+            0 => "on-the-wire=0",
+            1..=99 => "on-the-wire<100",
+            100..=999 => "on-the-wire<1000",
+            _ => "on-the-wire>=1000",
+        }
+        .to_string());
+        Case::pass(crossed > 0 && (refused_nospace + refused_store > 0 || boot > 1)).labels(labels)
+    }
+}
+
 fn main() {
     let mut run = Run::new(
         "C12",
@@ -1582,6 +1883,8 @@ fn main() {
     run.prop("event-range-top", n, event_top_case, check_event);
     let n = run.cases(200_000, 4_000_000);
     run.prop("checkin", n, checkin_case, check_checkin);
+    let n2 = run.cases(1_500, 60_000);
+    run.prop("group-tx-node", n2, txnode::tx_case, txnode::check);
 
     run.exhaustive("edge-table", table_items(), check_table);
 
